@@ -90,6 +90,8 @@ def run(ctx):
     chk.rule("R19.1", "each table entry's function body (after crate-local forwarding) is exactly one resolved call "
                       "to the documented primitive with parameters in documented order; no duplicate names")
     chk.rule("R19.2", "each constant is NumCast::from(<f64::consts item>) whose bits equal the IEEE value of its documented name")
+    from rules import c07 as _c07
+    _c07.thin_wrappers(chk, fb, "R19.4")
     chk.rule("R19.3", "for T in {f32, f64}: <T as num::Float>::m is exactly one call of the inherent primitive T::m with the arguments in order")
     chk.rule("R19.4", "FloatOpsFactory<T> is the default operator factory of FlatEx/DeepEx and the one used by parse/eval_str")
     make = fb.one_body(lambda b: b["kind"] == "AssocFn" and b.get("name") == "make"
